@@ -10,7 +10,9 @@ import (
 	"os/exec"
 	"path/filepath"
 	"regexp"
+	"runtime"
 	"sort"
+	"strconv"
 	"strings"
 	"sync"
 	"time"
@@ -673,6 +675,15 @@ func (r *Runner) solveOne(o *Obligation) {
 				tmo = min(tmo, 6)
 			}
 			res, all = solveQuery(file, tmo, o.Expect)
+			if o.Expect != "sat" && res.verdict != "unsat" && res.verdict != "sat" && machineBusy() {
+				// no definite answer while the machine is heavily loaded (other checks running in parallel): the time limit
+				// was probably eaten by contention - ask once more with three times the limit before calling it a failure
+				res2, all2 := solveQuery(file, 3*tmo, o.Expect)
+				all = append(all, all2...)
+				if res2.verdict == "unsat" || res2.verdict == "sat" {
+					res = res2
+				}
+			}
 		}
 		r.mu.Lock()
 		for _, a := range all {
@@ -781,4 +792,21 @@ func readSexp(s string) (string, int) {
 		i++
 	}
 	return s[start:i], i
+}
+
+// 1-minute load average above the number of CPUs: solver time limits are not trustworthy
+func machineBusy() bool {
+	b, err := os.ReadFile("/proc/loadavg")
+	if err != nil {
+		return false
+	}
+	f := strings.Fields(string(b))
+	if len(f) == 0 {
+		return false
+	}
+	v, err := strconv.ParseFloat(f[0], 64)
+	if err != nil {
+		return false
+	}
+	return v > float64(runtime.NumCPU())
 }
